@@ -322,9 +322,13 @@ def check_allocator(ctx, tu, tag):
                     bad = True
                     ctx.violation(R, inst, 'the block (obtained from alignedMalloc) is released with %s, required: alignedFree'
                                   % other[0][1], other[0][4], key='%s|%s|aligned_allocator::deallocate|not-alignedFree' % (R, file))
+                elif not fr and p.bounds(ptr.as_atom())[1] == 0:
+                    continue        # the pointer is null on this path (guarded by p == nullptr): nothing to release
                 elif len(fr) != 1:
                     bad = True
-                    report(ctx, p, R, inst, 'alignedFree is called %d times on a path, required: once' % len(fr), tu.fn_loc(f),
+                    plo, phi = p.bounds(ptr.as_atom())
+                    report(ctx, p, R, inst, 'alignedFree is called %d times on a path where the pointer %s, required: once'
+                           % (len(fr), 'is non-null' if plo >= 1 else 'can be non-null'), tu.fn_loc(f),
                            '%s|%s|aligned_allocator::deallocate|alignedFree-count' % (R, file))
                 elif fr[0][3][0] != ptr:
                     bad = True
